@@ -10,7 +10,7 @@ CHECKS = {
              text="Order of accuracy is a theorem about (A,b,c); the tableau is extracted from the executing code, not transcribed, and TLC evaluates the 8 order conditions with the times the code really uses, so non-autonomous order is decided exactly rather than estimated from convergence plots.",
              note="iterator linear in derivative values; tableau entries rational with denominator <= 1000; trusted: TLC evaluation of Rat.tla"),
  "C07": dict(cat="model_checking", design="3/C07", technique="TLA+ transcription of the upwind transport (PBMTransport.tla) model-checked exhaustively by TLC over a small exact domain; real PopulationBalanceModel bound by TLC-as-evaluator equality on the same and larger inputs",
-             text="Conservation (sum law), upwinding, nucleation class, per-face limiting, non-negativity under the step limit and the step-limit formula are invariants TLC checks on every distribution/growth field/nucleation term/dt of the 3-class rational domain; the code is bound to the transcription by equality of netFlux, dXdt, corrected values, step limit, dissolution index and nucleation class on the 3-class product and on seeded 4-10 class instances.",
+             text="Conservation (sum law), upwinding, nucleation class, per-face limiting, the total-loss limit of a class drained through both faces (beyond the stated clause), non-negativity under the step limit and the step-limit formula are invariants TLC checks on every distribution/growth field/nucleation term/dt of the 3-class rational domain; the code is bound to the transcription by equality of netFlux, dXdt, corrected values, step limit, dissolution index and nucleation class on the 3-class product and on seeded 4-10 class instances.",
              note="uniform grids; rational inputs; rtol 1e-9; cases whose exact evaluation overflows TLC's 32-bit integers are skipped and counted in evidence"),
  "C08": dict(cat="model_checking", design="3/C08", technique="TLA+ state machine of the size-class grid (PBM.tla) explored by TLC over all operation histories up to a bounded length; real PopulationBalanceModel bound by TLC-predicted attributes after every operation of the same histories",
              text="Grid consistency is an invariant and extension/re-mesh/adaptive/reset laws are action properties checked by TLC on every history of <=3-4 operations from several grids; the as-built re-mesh that loses a narrow spike is a named deviation (known finding). The code executes the same alphabet (all histories <=2-3, seeded 4-6) and every public attribute after every operation must equal the specification's exact prediction, which also decides purity of the moment functions.",
@@ -25,7 +25,7 @@ CHECKS = {
              text="Every step of every run in the suite (scripted self-consistent thermodynamics; 1-2 phases, site types, volume ratios, iterators, solve-call splits, ramps, dissolution, re-meshing, faults) is an event whose mass-balance and weighted-third-moment comparisons the specification must accept; the comparison operands are computed by an observer from the recorded distribution and the table in force, independently of the code path that produced the recorded values.",
              note="real-valued identities enter the specification as lt/eq/gt under the fixed tolerance table (rtol 1e-8, one particle per class); exact arithmetic in TLC is not possible for these quantities (32-bit integers); scripted thermodynamics only"),
  "C02": dict(cat="model_checking", design="3/C02", technique="TLA+ trace acceptor (KWN_Trace.tla) on per-step comparisons of reported density/mean radius/fraction with moments of the recorded size distribution, and the density law between consecutive steps",
-             text="Reported statistics are compared with M0, M1/M0 and r*v*M3 of the distribution recorded at that step, and M0 of each new distribution with M0 of the stored one plus nucRate*dt; the specification accepts only eq (resp. lt/eq), including on steps where the grid is extended or re-meshed.",
+             text="Reported statistics are compared with M0, M1/M0 and r*v*M3 of the distribution recorded at that step, and M0 of each new distribution with M0 of the stored one plus nucRate*dt; the step result captured before the documented removal must have no class below zero and the stored distribution must equal it minus the classes holding less than one particle; the specification accepts only eq (resp. lt/eq), including on steps where the grid is extended or re-meshed.",
              note="truncation allowance of one particle per class; density law on Euler runs only; scripted thermodynamics"),
  "C03": dict(cat="fault_enumeration", design="3/C03", technique="TLA+ trace acceptor (KWN_Trace.tla) on well-formedness observations of every step, over a configuration suite and an exhaustive enumeration of backend-failure schedules injected through a scripted thermodynamics object",
              text="All schedules of <=2 failed driving-force equilibria among the first 8-14 backend calls x both iterators are executed on the real model, plus the configuration suite (fixed/adaptive grids with recording, site types, ramps out of the two-phase region, dissolution, repeated solve calls); each step must keep the 16 histories aligned, finite, in range, and each call must end at its requested time.",
@@ -51,8 +51,8 @@ CHECKS = {
  "C12": dict(cat="model_checking", design="3/C12", technique="TLA+ acceptors: KWN_Trace.tla judges the growth-sign law on every step of the precipitation suite; Scan.tla (a latch + order machine) judges ordered Gibbs-Thomson and supersaturation scans of the real Al-Zr database",
              text="Partial claim. Decided: growth-sign law (larger than the critical radius grows, smaller shrinks) on every step of every suite run with a fresh lookup table; on the real database the unstable sentinel is upward closed, x_alpha(g) is non-decreasing, dG(x_alpha(g)) = g within the documented offset, dG rises with supersaturation, changes sign at the planar solvus and the four methods agree in sign away from it.",
              note="real-valued relations as lt/eq/gt under fixed tolerances; scripted closure for the precipitation states; value agreement of the four methods for a stoichiometric precipitate not decided"),
- "C14": dict(cat="model_checking", design="3/C14", technique="TLA+ model of the cached geometric factors (NucParams.tla) checked by TLC over all setter/read histories, bound by history replay against fresh objects; KWN_Trace.tla for zero nucleation at non-positive driving force in runs; Relations.tla acceptor for zero-propagation, clamps, site accounting and Clemm-Fisher relations",
-             text="Partial claim. Decided: cached factors follow every change (all read-set-read triples + seeded histories, direct and through PrecipitateParameters), rate = 0 whenever dG <= 0 on every step of the suite, zero propagation / Rcrit >= Rmin / incubation factor in [0,1] / scalar = array on a dG grid for 5 site types, available sites non-negative and non-increasing with occupation. Observed under fixed tolerances: Clemm-Fisher identities and monotonicities on a k-grid.",
+ "C14": dict(cat="model_checking", design="3/C14", technique="TLA+ model of the cached geometric factors (NucParams.tla) checked by TLC over all setter/read histories, bound by history replay against fresh objects; KWN_Trace.tla for zero nucleation at non-positive driving force in runs; Sites.tla (site pools per kind of site shared by all phases of that kind, model-checked over all short occupy/dissolve/re-site histories) bound by Sites_Trace.tla to snapshots of the real _calcNucleationSites; Relations.tla acceptor for zero-propagation, clamps and Clemm-Fisher relations",
+             text="Partial claim. Decided: cached factors follow every change (all read-set-read triples + seeded histories, direct and through PrecipitateParameters), rate = 0 whenever dG <= 0 on every step of the suite, zero propagation / Rcrit >= Rmin / incubation factor in [0,1] / scalar = array on a dG grid for 5 site types, available sites = max(pool of the phase's kind of site - occupation by all phases of that kind + parent surface, 0) in integer milli-units for 11 site assignments x 3 parent relations (hence non-negative, shared, non-increasing with occupation by any phase of the kind). Observed under fixed tolerances: Clemm-Fisher identities and monotonicities on a k-grid.",
              note="identities/monotonicities in k and dG are real-analytic facts judged as lt/eq/gt (observation level); known finding: negative barrier on grain-boundary-type sites under the minimum-radius clamp"),
 }
 
